@@ -25,7 +25,10 @@ META = {
             "BasisEmbedding / StronglyEntanglingLayers and adjoints, nested Adjoint/Pow/Controlled, initial and "
             "mid-circuit StatePrep/BasisState, mid-circuit measurements with conditionals/reset/postselection, "
             "trainable parameters, operators without matrix/decomposition, channels, unsupported observables and "
-            "measurements, wires missing from the device). The recorded stage names must equal the model's program "
+            "measurements, wires missing from the device; preceded by a seed-independent fixed corpus: default.qubit with "
+            "gradient_method='adjoint' on tapes with and without trainable parameters measuring expectation values of "
+            "diagonal / non-diagonal observables mixed with probs/state, and default.mixed / default.qubit with scalar "
+            "multiples, sums and products of supported and of unsupported (Pow, Adjoint) observables). The recorded stage names must equal the model's program "
             "for that device/config and the recorded per-stage batches (Ok tapes / Err) must equal the model's trace "
             "(validators and decompose are PREDICTED by the model from the predicate tables of the bound transforms "
             "and the one-level decompositions; contract-only rewriters are replayed). Directly on the real output: "
@@ -154,7 +157,7 @@ def exact_expected(st, n, m):
 
 
 def describe(r):
-    return {k: r.get(k) for k in ("device", "dev_wires", "labels", "grad", "mcm", "shots", "ops", "meas", "tags", "names")}
+    return {k: r.get(k) for k in ("device", "dev_wires", "labels", "grad", "mcm", "shots", "ops", "meas", "tags", "names", "fixed", "trainable_params")}
 
 
 def casekey(r):
@@ -186,6 +189,8 @@ def classify(r, kind, detail="", mm=None):
                 return "finding:default.tensor:state-measurements-accepted-but-not-executable"
             if "initial_prep" in tags or "midprep" in tags:
                 return "finding:default.tensor:initial-stateprep-wire-handling"
+        if dev == "default.qubit" and "dq_sprod_of_pow" in tags and exc in ("ValueError", "TypeError"):
+            return "finding:default.qubit:scalar-multiple-of-pow-observable-accepted-but-not-executable"
         if dev == "default.mixed" and exc == "MatrixUndefinedError" and "midprep" in tags:
             return "finding:default.mixed:midcircuit-stateprep-accepted-by-name"
         if dev == "default.clifford":
@@ -319,7 +324,7 @@ def run(ctx):
     ctx.coverage["timing_cumulative_s"] = tm
     nontrivial = sum(1 for r in runs if r["status"] == "accepted" and r.get("n_final_ops", 0) > len(r["ops"]))
     ctx.coverage.update({
-        "evaluations": len(runs), "distinct_nontrivial": nontrivial,
+        "evaluations": len(runs), "distinct_nontrivial": nontrivial, "fixed_corpus_cases": sum(1 for r in runs if r.get("fixed")),
         "rule": "seeded generator (per-case seed): device x wire configuration x ExecutionConfig x circuit flavour; non-trivial = accepted and the program changed the number of operations",
         "input_distribution": {"status": hist, "per_device": per_dev, "tags": tagcount, "reject_exception_types": reject_types},
         "stage_outcomes": stage_hits, "model_cases": len(model_cases), "model_skipped_table_overflow": skipped_overflow,
